@@ -289,8 +289,10 @@ Definition e_delete (ks : list string) (r : arec) : arec :=
   set_attrs r (fold_left (fun a k => remove_key k a) ks (rattrs r)).
 Definition e_keep (ks : list string) (r : arec) : arec :=
   set_attrs r (filter (fun kv => mem_str (fst kv) ks) (rattrs r)).
-(** RenameAttribute(new, old): if GetAttribute(old) succeeds { SetAttribute(new, value); DeleteAttribute(old) } *)
+(** RenameAttribute(new, old): renaming an attribute to its own name changes nothing; otherwise,
+    if GetAttribute(old) succeeds { SetAttribute(new, value); DeleteAttribute(old) } *)
 Definition rename1 (r : arec) (no : string * string) : arec :=
+  if String.eqb (fst no) (snd no) then r else
   match get_attr r (snd no) with
   | Some v => let r' := set_attr r (fst no) v in set_attrs r' (remove_key (snd no) (rattrs r'))
   | None => r
